@@ -137,7 +137,8 @@ def trans_groups(tier, seed):
             for (m, n) in shapes:
                 calls.append("run_trans_raw<Sym%d,%d,%d>();" % (sz, m, n))
             # the public entry points on a few shapes (same kernel behind them)
-            for (m, n) in rng.sample(shapes, min(len(shapes), 3 if tier == "quick" else 10)):
+            rect = [sh for sh in shapes if sh[0] != sh[1] and sh[0] > 1 and sh[1] > 1] or shapes
+            for (m, n) in rng.sample(rect, min(len(rect), 3 if tier == "quick" else 10)):
                 for api in (1, 2, 3, 4):
                     calls.append("run_trans_api<Sym%d,%d,%d,%d>();" % (sz, m, n, api))
             defs = []
@@ -165,6 +166,63 @@ def oracle_groups(tier, seed):
                 calls.append(rt_call(rng.choice((4, 8)), kind, ex, p, rng.choice(SHAPES[rank])))
         groups.append({"key": "roundtrip/%s/%s/co%s" % (isa, std, co or "d"), "header": HDR, "isa": isa, "std": std,
                        "defs": cfg_defs(co), "calls": calls})
+    return groups + real_groups(tier, seed)
+
+RTYPES = ["float", "double", "int32_t", "int64_t", "std::complex<double>", "std::complex<float>"]
+LEAF = {"float": [(2, 2), (3, 3), (4, 4), (8, 8), (16, 16)], "double": [(2, 2), (3, 3), (4, 4), (8, 8), (16, 16)]}
+RHDR = "permute_real.h"
+
+def real_groups(tier, seed):
+    """K4: real element types per ISA — intrinsic leaf kernels, blocked nest with edges, public entry points,
+    fenced buffers; plus the two build configurations in which the float leaf dispatch used to be ill-formed"""
+    rng = random.Random(seed * 613 + 8)
+    groups = []
+    isas = ["sse2", "avx", "avx2", "avx512"] if tier == "quick" else core.ALL_ISAS
+    variants = [(isa, [], "") for isa in isas]
+    variants += [("avx512", ["-mno-avx512dq", '-DVR_TAG="-nodq"'], "-nodq"),
+                 ("avx2", ["-DFASTOR_TRANS_OUTER_BLOCK_SIZE=2", "-DFASTOR_TRANS_INNER_BLOCK_SIZE=2", '-DVR_TAG="-b2x2"'], "-b2x2")]
+    if tier != "quick":
+        variants += [("avx", ["-DFASTOR_TRANS_OUTER_BLOCK_SIZE=2", "-DFASTOR_TRANS_INNER_BLOCK_SIZE=2", '-DVR_TAG="-b2x2"'], "-b2x2"),
+                     ("avx512", ["-DFASTOR_TRANS_OUTER_BLOCK_SIZE=3", "-DFASTOR_TRANS_INNER_BLOCK_SIZE=2", '-DVR_TAG="-b3x2"'], "-b3x2"),
+                     ("avx2", ["-DFASTOR_TRANS_OUTER_BLOCK_SIZE=1", "-DFASTOR_TRANS_INNER_BLOCK_SIZE=3", '-DVR_TAG="-b1x3"'], "-b1x3")]
+    nrand = 3 if tier == "quick" else 14
+    for vi, (isa, defs, tag) in enumerate(variants):
+        calls = []
+        sd = seed * 10 + vi
+        for t in ("float", "double"):
+            for (m, n) in LEAF[t]:
+                for place in (0, 1):
+                    calls.append("run_treal<%s,%d,%d>(%du,%d);" % (t, m, n, sd, place))
+            shapes = {(8, 16), (17, 9), (5, 33), (24, 16), (33, 18)}
+            while len(shapes) < 5 + nrand:
+                shapes.add((rng.randint(1, 40), rng.randint(1, 40)))
+            for (m, n) in sorted(shapes):
+                calls.append("run_treal<%s,%d,%d>(%du,%d);" % (t, m, n, sd, (m + n) % 2))
+            for api in (1, 2, 3, 6):
+                for (m, n) in [(3, 3), rng.choice(sorted(shapes))]:
+                    calls.append("run_tapi<%s,%d,%d,%d>(%du);" % (t, m, n, api, sd))
+            calls.append("run_tbatch<%s,%d,%d>(%du);" % (t, rng.randint(2, 4), rng.choice((2, 3, 4, 8)), sd))
+        for t in ("int32_t", "int64_t", "std::complex<double>", "std::complex<float>"):
+            for _ in range(2 if tier == "quick" else 6):
+                calls.append("run_treal<%s,%d,%d>(%du,%d);" % (t, rng.randint(1, 20), rng.randint(1, 20), sd, rng.randint(0, 1)))
+            calls.append("run_tapi<%s,%d,%d,%d>(%du);" % (t, rng.randint(1, 9), rng.randint(1, 9), rng.choice((1, 2, 3)), sd))
+        for t in ("std::complex<double>", "std::complex<float>"):
+            for api in (4, 5):
+                calls.append("run_tapi<%s,%d,%d,%d>(%du);" % (t, rng.randint(1, 9), rng.randint(1, 9), api, sd))
+        if not tag:
+            for t in RTYPES:
+                for _ in range(2 if tier == "quick" else 8):
+                    rank = rng.choice((2, 3, 3, 4))
+                    p = tuple(rng.sample(range(rank), rank))
+                    kind, ex = rng.choice(ALL_PATHS)
+                    calls.append("run_preal<%s,%d,%d,%s,%s,%s>(%du);" % (t, kind, ex, idx(p), idx(inv(p)), ",".join(map(str, rng.choice(SHAPES[rank]))), sd))
+        groups.append({"key": "real/%s%s" % (isa, tag), "header": RHDR, "isa": isa, "std": "c++17" if vi % 2 else "c++14",
+                       "opt": "-O2", "defs": defs, "calls": calls})
+        if tag in ("-nodq", "-b2x2"):
+            # compile acceptance of the float leaf dispatch: a unit with float transposes only (a unit in which every
+            # call is rejected by the compiler is reported, single rejected calls of a mixed unit are only noted)
+            groups.append({"key": "accept/%s%s" % (isa, tag), "header": RHDR, "isa": isa, "std": "c++14", "opt": "-O1", "defs": defs,
+                           "calls": ["run_treal<float,%d,%d>(%du,0);" % (m, n, sd) for (m, n) in [(16, 16), (17, 35), (33, 18)]]})
     return groups
 
 def nontrivial(inp, mo):
@@ -173,6 +231,25 @@ def nontrivial(inp, mo):
         p = d.get("p", "").split(",")
         return p != sorted(p, key=int)
     return d.get("M") != "1" and d.get("N") != "1"
+
+def box_summary(tier, seed):
+    """what the generated box contains (the same generators the run uses), for the evidence file"""
+    import re
+    perms = {}; blocks = {}; real = {}
+    for g in sym_groups(tier, seed):
+        for c in g["calls"]:
+            m = re.match(r"run_perm<Sym\d,(\d),(\d),Fastor::Index<([\d,]+)>", c)
+            if m:
+                k = "%s/%s/%s/rank%d" % (g["key"].split("/", 1)[1], "legacy" if m.group(1) == "1" else "new",
+                                         "expr" if m.group(2) == "1" else "tensor", len(m.group(3).split(",")))
+                perms[k] = perms.get(k, 0) + 1
+            elif c.startswith("run_trans"):
+                blocks[g["key"]] = blocks.get(g["key"], 0) + 1
+    for g in oracle_groups(tier, seed):
+        real[g["key"]] = len(g["calls"])
+    return {"permute_cases_by_config_path_rank": perms, "transpose_cases_by_config_block": blocks, "oracle_cases_by_group": real,
+            "leaf_kernels_run_on_fenced_buffers": {t: ["%dx%d" % mn for mn in LEAF[t]] for t in LEAF},
+            "element_types": RTYPES}
 
 def run(tier, seed):
     return flow.standard_run(
@@ -183,7 +260,7 @@ def run(tier, seed):
              "(or one metafunction dump) per (configuration, entry point, argument kind, permutation, shape); compared with the Lean model on the "
              "final placement of every source token, the order in which the source is read, the order of stores (transpose), read sets, chosen "
              "width and declared result extents; non-trivial = the permutation is not the identity / the matrix is not a vector",
-        nontrivial=nontrivial, per_tu=80)
+        nontrivial=nontrivial, per_tu=80, extra_cov={"box": box_summary(tier, seed)})
 
 def sym_call_of(inp):
     d = symrun.kv(inp)
